@@ -7,6 +7,7 @@ package main
 import (
 	"flag"
 	"fmt"
+	"go/types"
 	"os"
 	"runtime/debug"
 	"sort"
@@ -42,12 +43,36 @@ func main() {
 		var names []string
 		for _, fn := range prog.ModuleFuncs() {
 			if fn.Parent() == nil {
-				names = append(names, core.FuncName(fn))
+				names = append(names, core.FuncName(fn)+"\t"+core.SigString(fn))
 			}
 		}
 		sort.Strings(names)
 		for _, n := range names {
 			fmt.Println(n)
+		}
+	case "fields":
+		// inventory of the struct fields of a tree (baseline_fields.txt is generated with it)
+		fs := flag.NewFlagSet("fields", flag.ExitOnError)
+		repo := fs.String("repo", "/repo", "repository to analyse")
+		fs.Parse(os.Args[2:])
+		os.Setenv("DBLINT_NOINLINE", "1")
+		prog := core.Load(*repo, nil)
+		for _, pk := range prog.Pkgs {
+			rel := strings.TrimPrefix(strings.TrimPrefix(pk.PkgPath, core.Module), "/")
+			scope := pk.Types.Scope()
+			for _, name := range scope.Names() {
+				tn, ok := scope.Lookup(name).(*types.TypeName)
+				if !ok {
+					continue
+				}
+				st, ok := tn.Type().Underlying().(*types.Struct)
+				if !ok {
+					continue
+				}
+				for i := 0; i < st.NumFields(); i++ {
+					fmt.Printf("%s.%s\t%d\t%s\t%s\n", rel, name, i, st.Field(i).Name(), types.TypeString(st.Field(i).Type(), nil))
+				}
+			}
 		}
 	case "doc":
 		var ids []string
@@ -123,6 +148,10 @@ func check(id, tier, repo, verif string, noposex bool) (code int) {
 	if len(prog.InlinedHelpers) > 0 {
 		run.Note("functions that do not exist in the reviewed tree were inlined into their callers in the analysed SSA form: %s", strings.Join(prog.InlinedHelpers, ", "))
 		fmt.Printf("note: new helpers inlined at their call sites: %s\n", strings.Join(prog.InlinedHelpers, ", "))
+	}
+	if len(prog.Renames) > 0 {
+		run.Note("functions/fields of the reviewed tree recognised under a new name (same receiver/struct, same signature/position and type): %s", strings.Join(prog.Renames, "; "))
+		fmt.Printf("note: renamed since the reviewed tree: %s\n", strings.Join(prog.Renames, "; "))
 	}
 	if prog.InlineFailure != "" {
 		run.Note("inlining of new helpers was abandoned (%s); the program was analysed as built", prog.InlineFailure)
